@@ -93,10 +93,35 @@ def _get_nested(model, parts):
     return d
 
 
+PLACEHOLDER = "zz_none"
+
+
+def _with_placeholder(model, depth):
+    """A table registered without columns cannot be written in a constructor mapping (the constructor needs a column
+    to see the nesting depth). The reference schema gives such a table one placeholder column, which is removed from its
+    answers again (_strip): visibility and ambiguity are then judged exactly like for any other table."""
+    def rec(d, level):
+        out = {}
+        for k, v in d.items():
+            if level == depth:
+                out[k] = dict(v) if v else {PLACEHOLDER: "INT"}
+            else:
+                out[k] = rec(v, level + 1)
+        return out
+    return rec(model, 1)
+
+
+def _strip(ans):
+    if ans and ans[0] == "ok" and isinstance(ans[1], list):
+        return ("ok", [x for x in ans[1] if (x[0] if isinstance(x, (tuple, list)) else x).lower() != PLACEHOLDER])
+    return ans
+
+
 def _fresh(model, dialect, normalize):
     from sqlglot.schema import MappingSchema
 
-    return MappingSchema(copy.deepcopy(model) if model else None, dialect=dialect, normalize=normalize)
+    m = _with_placeholder(model, _model_depth(model)) if model else None
+    return MappingSchema(m, dialect=dialect, normalize=normalize)
 
 
 def _spellings(name, rng=None):
@@ -188,7 +213,7 @@ def run_history(ctx, cfg, ops, u, sweep):
                 fresh = _fresh(model, dialect, normalize)
             except Exception as e:
                 return ("fresh-init", {"step": step, "err": repr(e)})
-            b = _do_lookup(fresh, op)
+            b = _strip(_do_lookup(fresh, op))
             ctx.count("lookups_compared")
             if a != b:
                 return ("lookup", {"step": step, "lookup": op, "live": a, "fresh": b})
@@ -198,7 +223,7 @@ def run_history(ctx, cfg, ops, u, sweep):
     except Exception as e:
         return ("fresh-init", {"step": len(ops), "err": repr(e)})
     for l in sweep:
-        a, b = _do_lookup(live, l), _do_lookup(fresh, l)
+        a, b = _do_lookup(live, l), _strip(_do_lookup(fresh, l))
         ctx.count("lookups_compared")
         if a != b:
             return ("lookup", {"step": len(ops), "lookup": l, "live": a, "fresh": b})
@@ -221,7 +246,7 @@ def _model_depth(model):
 
 def _canon_mapping(m):
     if isinstance(m, dict):
-        return {k: _canon_mapping(v) for k, v in m.items()}
+        return {k: _canon_mapping(v) for k, v in m.items() if k.lower() != PLACEHOLDER}
     return m if isinstance(m, str) else getattr(m, "sql", lambda: repr(m))()
 
 
@@ -262,13 +287,16 @@ def worker(ctx):
                 continue  # a lookup on an empty schema first adds nothing new beyond its suffix histories
             # add_table(x, None) is only generated as the documented no-op on a registered table
             # (on an unknown table it creates a column-less table that no fresh schema can hold)
-            reg, ok = set(), True
+            reg, ok, with_cols = set(), True, False
             for o in ops:
                 if o[0] == "add":
-                    if o[2] is None and o[1] not in reg:
+                    if o[2] is None and o[1] not in reg and not with_cols:
+                        # a column-less registration in a schema without any columns leaves the nesting depth
+                        # undefined; once one table has columns it is just another table (reference: _with_placeholder)
                         ok = False
                         break
                     reg.add(o[1])
+                    with_cols = with_cols or bool(o[2])
             if not ok:
                 continue
             for cfg in configs:
@@ -328,14 +356,15 @@ def worker(ctx):
             continue
         # an add_table(x, None) for a table never registered would create a column-less table that
         # a fresh MappingSchema refuses to build: keep only no-op uses
-        seen = set()
+        seen, with_cols = set(), False
         clean = []
         for o in ops:
             if o[0] == "add":
-                if o[2] is None and o[1] not in seen:
+                if o[2] is None and o[1] not in seen and not (with_cols and len(o[1]) == depth):
                     continue
                 if len(o[1]) == depth:
                     seen.add(o[1])
+                    with_cols = with_cols or bool(o[2])
             clean.append(o)
         ctx.count("evaluations")
         ctx.count("random_histories")
